@@ -17,9 +17,12 @@ const (
 	KNull
 	KError
 	KPanic
+	KMarshalPanic // the value is produced, but serialising it panics (custom scalar only)
 )
 
-func (k Kind) String() string { return [...]string{"value", "null", "error", "panic"}[k] }
+func (k Kind) String() string {
+	return [...]string{"value", "null", "error", "panic", "marshal-panic"}[k]
+}
 
 // DirKind is what the @guard directive does at a position.
 type DirKind int
@@ -60,6 +63,9 @@ func h64(seed uint64, key string) uint64 {
 func (p *Plan) Resolver(path string, nilable bool) Kind {
 	if k, ok := p.Faults[path]; ok {
 		if k == KNull && !nilable {
+			return KValue
+		}
+		if k == KMarshalPanic {
 			return KValue
 		}
 		return k
@@ -138,6 +144,9 @@ func (p *Plan) Scalar(key, typeName string) *parsers.J {
 	case "ID":
 		return parsers.NewStr(fmt.Sprintf("id-%s", key))
 	case "Blob":
+		if p.Faults[key] == KMarshalPanic {
+			return parsers.NewStr("MARSHAL_PANIC-" + key)
+		}
 		return parsers.NewStr(fmt.Sprintf("blob-%s-%d", key, x%97))
 	default:
 		return parsers.NewStr(fmt.Sprintf("%s-%d", key, x%97))
